@@ -239,7 +239,8 @@ def run_shard(args):
 # --------------------------------------------------------------------------
 
 def write_replay(pid, bucket, case, detail, seed, mod):
-    d = os.path.join(VERIF, 'replays', pid)
+    d = os.path.join(os.environ.get('T4GC_REPLAY_DIR') or
+                     os.path.join(VERIF, 'replays'), pid)
     os.makedirs(d, exist_ok=True)
     h = hashlib.sha1(bucket.encode()).hexdigest()[:10]
     path = os.path.join(d, '%s.json' % h)
@@ -251,7 +252,8 @@ def write_replay(pid, bucket, case, detail, seed, mod):
         pass
     with open(path, 'w') as f:
         json.dump(payload, f, indent=1, default=str)
-    return os.path.relpath(path, VERIF)
+    return os.path.relpath(path, VERIF) if path.startswith(VERIF + os.sep) \
+        else path
 
 
 def run_replay(pid, path):
@@ -407,13 +409,15 @@ def main(argv=None):
           'level': mod.LEVEL, 'coverage': cov,
           'assumptions': list(getattr(mod, 'ASSUMPTIONS', [])),
           'wall_s': round(wall, 2), 'violations': len(found)}
-    os.makedirs(os.path.join(VERIF, 'evidence'), exist_ok=True)
-    with open(os.path.join(VERIF, 'evidence', '%s.json' % pid), 'w') as f:
+    evdir = os.environ.get('T4GC_EVIDENCE_DIR') or \
+        os.path.join(VERIF, 'evidence')
+    os.makedirs(evdir, exist_ok=True)
+    with open(os.path.join(evdir, '%s.json' % pid), 'w') as f:
         json.dump(ev, f, indent=1, default=str)
     print('%s %s seed=%d: %d cases, %d distinct non-trivial, %d violation '
           'bucket(s), %.1fs' % (pid, tier, seed, cov['evaluations'], nontriv,
                                 len(found), wall))
-    if cov['evaluations'] < 1 or nontriv < 2:
+    if not found and (cov['evaluations'] < 1 or nontriv < 2):
         print('HARNESS ERROR: too few non-trivial cases (generator problem)')
         return 2
     if found:
